@@ -70,6 +70,9 @@ type env struct {
 // leaks: lock -> example site of a return (or end of function) that leaves it held
 var leaks = map[string]string{}
 
+// orderEdges: (lock held, lock taken while it is held) -> example site: the order in which locks are nested
+var orderEdges = map[[2]string]string{}
+
 func (e *env) checkLeak(at token.Pos) {
 	for k := range e.own {
 		if _, held := e.held[k]; held && !e.deferred[k] {
@@ -374,6 +377,16 @@ func (e *env) call(c *ast.CallExpr) {
 			lp := e.pathOf(sel.X)
 			if lp == "" {
 				lp = "?" + types.ExprString(sel.X)
+			}
+			if sel.Sel.Name == "Lock" || sel.Sel.Name == "RLock" {
+				for k := range e.held {
+					if k != lp {
+						if _, seen := orderEdges[[2]string{k, lp}]; !seen {
+							pos := e.pkg.Fset.Position(c.Pos())
+							orderEdges[[2]string{k, lp}] = fmt.Sprintf("%s@%s:%d", e.entry, relFile(pos.Filename), pos.Line)
+						}
+					}
+				}
 			}
 			switch sel.Sel.Name {
 			case "Lock":
@@ -952,6 +965,58 @@ func main() {
 		fmt.Fprintf(&b, "(* %s left held at %s *)\n", k, leaks[k])
 	}
 	fmt.Fprintf(&b, "Definition leaked_locks : list nat := [%s].\n", strings.Join(ids, "; "))
+	// nesting order of locks: one edge per (held, taken) pair, and a ranking of the locks that the Coq side checks every edge
+	// against (a topological order if there is one; otherwise the check fails and names the cycle's edges in the comments)
+	orderID := map[string]int{}
+	var orderNames []string
+	oid := func(k string) int {
+		if id, ok := lockID[k]; ok {
+			return id
+		}
+		if id, ok := orderID[k]; ok {
+			return id
+		}
+		orderID[k] = len(lockNames) + len(leaks) + len(orderNames)
+		orderNames = append(orderNames, k)
+		return orderID[k]
+	}
+	var ekeys [][2]string
+	for k := range orderEdges {
+		ekeys = append(ekeys, k)
+	}
+	sort.Slice(ekeys, func(i, j int) bool { return ekeys[i][0]+"\x00"+ekeys[i][1] < ekeys[j][0]+"\x00"+ekeys[j][1] })
+	var edges []string
+	succ := map[int][]int{}
+	indeg := map[int]int{}
+	nodes := map[int]bool{}
+	for _, k := range ekeys {
+		a, c := oid(k[0]), oid(k[1])
+		edges = append(edges, fmt.Sprintf("(%d, %d)", a, c))
+		fmt.Fprintf(&b, "(* %s (%d) is held when %s (%d) is taken at %s *)\n", k[0], a, k[1], c, orderEdges[k])
+		succ[a] = append(succ[a], c)
+		indeg[c]++
+		nodes[a], nodes[c] = true, true
+	}
+	var rank []string
+	var ready []int
+	for n := range nodes {
+		if indeg[n] == 0 {
+			ready = append(ready, n)
+		}
+	}
+	for len(ready) > 0 {
+		sort.Ints(ready)
+		n := ready[0]
+		ready = ready[1:]
+		rank = append(rank, fmt.Sprint(n))
+		for _, m := range succ[n] {
+			if indeg[m]--; indeg[m] == 0 {
+				ready = append(ready, m)
+			}
+		}
+	}
+	fmt.Fprintf(&b, "Definition lock_order : list (nat * nat) := [%s].\n", strings.Join(edges, "; "))
+	fmt.Fprintf(&b, "Definition lock_rank : list nat := [%s].\n", strings.Join(rank, "; "))
 	if *out != "" {
 		if err := os.WriteFile(*out, []byte(b.String()), 0o644); err != nil {
 			fmt.Fprintln(os.Stderr, err)
